@@ -218,6 +218,58 @@ def run(ctx: Ctx):
            "the exact (enumeration) estimator detaches part of its computation: its gradient is no longer the exact "
            "gradient", f.module.relname, f.line)
 
+    # ---- S5b Metropolis-Hastings: func is evaluated on this step's accepted sample -----------------------------
+    f = res.find_method(pkg.cls("_mc::IndependentMetropolisHastingsEstimator"), "__call__")[0]
+    rel = f.module.relname
+    rdm = ReachingDefs(f.node)
+    loops = [n for n in own_nodes(f.node) if isinstance(n, ast.For)]
+    fcalls = [c for c in own_calls(f.node) if call_name(c) == "self.func" and c.args]
+    col.floor("mh_func_calls", len(fcalls), 1)
+    for c in fcalls:
+        loop = next((L for L in loops if any(c is x for x in ast.walk(L))), None)
+        a = c.args[0]
+        ok = False
+        why = "is not evaluated inside the sampling loop"
+        if loop is not None and isinstance(a, ast.Name):
+            inside = {id(x) for x in ast.walk(loop)}
+            ds = rdm.defs_of(a)
+            all_inside = bool(ds) and all(d.stmt is not None and id(d.stmt) in inside for d in ds)
+            sel = all(isinstance(d.value, ast.Call) and call_name(d.value) == "torch.where" and len(d.value.args) == 3
+                      and "accept" in u(d.value.args[0]) for d in ds)
+            ok = all_inside and sel
+            why = (f"`{a.id}` can still hold a value from before the loop / the previous step" if not all_inside
+                   else f"`{a.id}` is not the accept-selected sample torch.where(accept, proposed, previous)")
+        col.ob("G16", "S5", f"{rel}::{f.qualname}::func-on-this-step's-accepted-sample", ok,
+               f"`{u(c)}`: {why}; the post-burn-in average would lag by one step and include the starting point",
+               rel, c.lineno, sample=u(c))
+    # the chain advances with this step's sample and ratio
+    carry = [n for n in own_nodes(f.node) if isinstance(n, ast.Assign) and isinstance(n.targets[0], ast.Tuple)
+             and [u(t) for t in n.targets[0].elts] == ["last_sample", "last_ratio"]]
+    col.ob("G16", "S5", f"{rel}::{f.qualname}::chain-carries-(sample, ratio)", any(
+        isinstance(n.value, ast.Tuple) and [u(x) for x in n.value.elts] == ["cur_sample", "cur_ratio"] for n in carry),
+        "the chain state carried to the next step is not (this step's sample, this step's ratio)", rel, f.line)
+
+    # ---- S7 sibling agreement: probs<->logits conversions of one distribution use the same parameterisation -------
+    n_pairs = 0
+    for mname in ("_straight_through", "_combinatorics", "_mc"):
+        for ci in pkg.module(mname).classes.values():
+            vals = {}
+            for fl in ci.methods.values():
+                for m in fl:
+                    for c in own_calls(m.node):
+                        if call_name(c) in ("logits_to_probs", "probs_to_logits"):
+                            kw = [u(k.value) for k in c.keywords if k.arg == "is_binary"]
+                            vals.setdefault(call_name(c), set()).add(kw[0] if kw else "<absent>")
+            if len(vals) == 2:
+                n_pairs += 1
+                allv = set().union(*vals.values())
+                col.ob("G13", "S7", f"{ci.module.relname}::{ci.name}::probs<->logits::same-is_binary", len(allv) == 1,
+                       f"{ci.name} converts with {({k: sorted(v) for k, v in vals.items()})}: logits_to_probs and "
+                       f"probs_to_logits are inverses only under the same is_binary; a sigmoid/softmax mix-up makes "
+                       f"`probs` inconsistent with `logits`", ci.module.relname, ci.node.lineno,
+                       sample={k: sorted(v) for k, v in vals.items()})
+    col.floor("probs_logits_pairs", n_pairs, 2)
+
     # ---- S5' constructor definite assignment -----------------------------------------------------------------
     n_init = 0
     for f in ctx.owned():
@@ -316,6 +368,8 @@ def _mutants():
         M("mh-init-reads-self", F, "sample_shape = proposal.batch_shape + proposal.event_shape", "sample_shape = self.proposal.batch_shape + self.proposal.event_shape",
           "reads-before-initialisation"),
         M("enumerate-detaches", "_enumerate_estimator.py", "v = (fb * log_pb.exp()).sum(0)", "v = (fb * log_pb.exp().detach()).sum(0)", "detaches-nothing"),
+        M("mh-func-on-last-sample", F, "fb = self.func(cur_sample).squeeze(0)", "fb = self.func(last_sample).squeeze(0)", "accepted-sample"),
+        M("bernoulli-softmax-probs", "_straight_through.py", "return logits_to_probs(self.logits, is_binary=True)", "return logits_to_probs(self.logits)", "same-is_binary"),
         M("twin:rename-deriv", F, "deriv", "score", "", -1, twin=True),
     ]
 
